@@ -9,13 +9,16 @@
 //   formula <hex>                  spelling-algebra formula, applied in order (rime::Projection)
 //   row <keyhex> <sylhex>:<type>:<k>,...   explicit script row (replaces algebra for that key);
 //                                  credibility = log(0.5) summed k times, or `x<16 hex>` = exact double bits
-//   build script|plain load|noload build the prism file in <workdir>; "plain" = Prism::Build(syllabary)
-//                                  without a script; "load" = Save + Load through a second object
+//   build script|plain|rows load|noload   build the prism file in <workdir>; "plain" = Prism::Build(syllabary)
+//                                  without a script; "rows" = the script is the explicit rows alone (no AddSyllable:
+//                                  what a replay needs to rebuild a recorded prism); "load" = Save + Load through a
+//                                  second object, "noload" = the object that ran Build is used as it is
 //   q <delims> <completion> <strict> <input>
 //   qall <delims> <symbols> <maxlen>   every string over <symbols> of length 0..maxlen x 4 flag pairs
 //
-// output: after `build`: `P <alphabet>` and one `K <key> <syl>:<type>:<cred16>,...` per spelling id
-// (what the SpellingAccessor enumerates), `#`-prefixed notes; per query the op line
+// output: after `build`: `P <loaded 0|1>` (the spec's own load flag, NOT anything read from the object), one
+// `K <key> <syl>:<type>:<cred16>,...` per spelling id (what the SpellingAccessor enumerates) and
+// `A <alphabet>` = the alphabet the object's metadata holds; `#`-prefixed notes; per query the op line
 // `Q <delims> <c> <s> <input>` followed by `G ret=.. il=.. in=.. V=.. E=.. I=.. px=0|1`
 // (px = every pointer of `indices` is the address of the edge property it transposes).
 #include "hcommon.h"
@@ -33,7 +36,6 @@ using namespace rime;
 struct PrismX : Prism {
   using Prism::Prism;
   const char* alphabet() const { return metadata_ ? metadata_->alphabet : ""; }
-  double fmt() const { return format_; }
 };
 
 static std::string bits(double d) {
@@ -63,12 +65,13 @@ struct Spec {
 static std::unique_ptr<PrismX> g_prism;
 static int g_prism_no = 0;
 
-static bool build(const std::string& work, Spec& sp, bool use_script, bool load) {
+static bool build(const std::string& work, Spec& sp, const std::string& mode, bool load) {
+  bool use_script = mode != "plain";
   Syllabary syllabary;
   for (auto& s : sp.syls) syllabary.insert(s);
   Script script;
   if (use_script) {
-    for (auto& s : syllabary) script.AddSyllable(s);
+    if (mode != "rows") for (auto& s : syllabary) script.AddSyllable(s);
     if (!sp.formulas.empty()) {
       auto list = New<ConfigList>();
       for (auto& f : sp.formulas) list->Append(New<ConfigValue>(f));
@@ -90,9 +93,9 @@ static bool build(const std::string& work, Spec& sp, bool use_script, bool load)
     p = std::make_unique<PrismX>(path(file));
     if (!p->Load()) { printf("# error: Prism::Load failed\n"); return false; }
   }
-  // the alphabet ExpandSearch iterates (prism.cc: format_ > 1.0 - eps ? metadata alphabet : a-z)
-  std::string alphabet = (p->fmt() > 1.0 - 1e-9) ? std::string(p->alphabet()) : std::string("abcdefghijklmnopqrstuvwxyz");
-  printf("P %s\n", vh::hex(alphabet).c_str());
+  // which alphabet ExpandSearch walks is the model's business (RimeModel.C08.searchAlphabet): it is told how
+  // the object came to be, nothing about its state
+  printf("P %d\n", load ? 1 : 0);
   std::vector<std::string> keys;
   if (use_script) for (auto& kv : script) keys.push_back(kv.first);
   else for (auto& s : syllabary) keys.push_back(s);
@@ -108,6 +111,7 @@ static bool build(const std::string& work, Spec& sp, bool use_script, bool load)
     }
     printf("K %s %s\n", vh::hex(keys[id]).c_str(), ds.empty() ? "-" : ds.c_str());
   }
+  printf("A %s\n", vh::hex(std::string(p->alphabet())).c_str());
   g_prism = std::move(p);
   return true;
 }
@@ -221,7 +225,8 @@ int main(int argc, char** argv) {
     else if (op == "build") {
       std::string a, b;
       ss >> a >> b;
-      if (!build(work, sp, a == "script", b == "load")) { printf("# build-failed\n"); g_prism.reset(); }
+      if (a != "script" && a != "plain" && a != "rows") printf("# error: unknown build mode %s\n", a.c_str());
+      else if (!build(work, sp, a, b == "load")) { printf("# build-failed\n"); g_prism.reset(); }
     }
     else if (op == "q") {
       std::string d, c, s, i;
